@@ -644,6 +644,8 @@ class NumpyModel:
         return self.value_attr(ex, obj, attr, lineno)
 
     def value_attr(self, ex, obj, attr, lineno):
+        if isinstance(obj, TiledV):
+            return BoundMethod(obj, None, f"np.{attr}")
         if isinstance(obj, SV) and obj.ty == DTYPE:
             return NotImplemented
         if not _is_arr(ex, obj):
@@ -666,6 +668,16 @@ class NumpyModel:
         return BoundMethod(obj, None, f"np.{attr}")
 
     def call_method(self, ex, recv, name, args, kwargs, lineno):
+        if isinstance(recv, TiledV) and name == "np.reshape":
+            # tile(x, n).reshape((n, d)) with d = len(x): n stacked copies of x (row r = x)
+            X = _arr(ex, recv.base)
+            shp = args[0] if len(args) == 1 and isinstance(args[0], tuple) else tuple(args)
+            if len(shp) != 2:
+                raise Unsupported("reshape of a tiled vector to a non-matrix")
+            r, c = ex.num(shp[0])[0], ex.num(shp[1])[0]
+            if not (self.same(ex, r, recv.reps, lineno) and self.same(ex, c, X.shape[0], lineno)):
+                raise Unsupported("reshape of tile(x, n) to a shape other than (n, len(x))")
+            return self.new(ex, X.kind, (r, c), self.lam(2, lambda i, j: X.elems[j]))
         if not (name.startswith("np.") and _is_arr(ex, recv)):
             return NotImplemented
         name = name[3:]
